@@ -110,6 +110,17 @@ def menu():
         add(o, ['0,10,0', '0,10,-1', '0,0,3', 'nan,10,3', '0,nan,3', '0,inf,3', '0,10', '0,10,3,4', '0,10,2.5', '1e300,1e300,3', '-400,777,3', '0,1,400'])
     add('--near-field', ['0,0,0,0,0,0,1,1,1', '1,1,1,1,1,1,0,1,1', '1,1,1,1,1,1,-1,1,1', 'nan,1,1,1,1,1,1,1,1', '1,1,1,nan,1,1,2,1,1', '1,1,1,inf,1,1,2,1,1',
                          '0,0,1,1,1,1,1,1,1', '0,0,0,1,1,1,1,1,1', '1e300,0,0,1,1,1,1,1,1', '1,1,1,1,1,1,1,1', '1,1,1,0,1,1,3,1,1', '1,1,1,1,1,1,1.5,1,1'])
+    # complete increment x count grid per axis / angle (zero and negative on the SAME axis included)
+    nfg = []
+    for ax in range(3):
+        for inc in ('1', '0', '-1'):
+            for cnt in ('2', '1', '0', '-1', '-3'):
+                v = ['1', '2', '3', '1', '1', '1', '1', '1', '2']
+                v[3 + ax], v[6 + ax] = inc, cnt
+                nfg.append(','.join(v))
+    add('--near-field', nfg)
+    for o in ('--theta', '--phi'):
+        add(o, ['5,%s,%s' % (inc, cnt) for inc in ('10', '0', '-10') for cnt in ('2', '1', '0', '-1', '-3')])
     for o in ('--ff-power', '--ff-distance', '--nf-power'):
         add(o, ['0', '-1', 'nan', 'inf', '1e300', '1e-300'])
     for o in ('--geo-rotate', '--geo-translate'):
